@@ -19,6 +19,7 @@ type fsFile struct {
 type fsHandle struct {
 	name   string
 	closed bool
+	off    int
 }
 
 type fsState struct {
@@ -162,7 +163,14 @@ func registerFS(ip *Interp) {
 		if f == nil || h.closed {
 			return Tuple{ip.intC(0), ip.fsErr("write "+h.name+": file already closed", false)}
 		}
-		f.data = strOf(append(append([]*sym.Term(nil), f.data.B...), b...))
+		// write at the handle's offset, overwriting what is there and extending the file
+		nb := append([]*sym.Term(nil), f.data.B[:min(h.off, len(f.data.B))]...)
+		nb = append(nb, b...)
+		if h.off+len(b) < len(f.data.B) {
+			nb = append(nb, f.data.B[h.off+len(b):]...)
+		}
+		f.data = strOf(nb)
+		h.off += len(b)
 		ip.fs.trace = append(ip.fs.trace, fmt.Sprintf("write:%s", h.name))
 		return Tuple{ip.intC(int64(len(b))), Iface{}}
 	})
